@@ -652,6 +652,48 @@ def iter_next(interp, it):
             if not is_some(o):
                 return NONE, IterV("flatten", outer, None)
             cur = make_iter(interp, o.fields[0])
+    if k == "take":
+        if it.i >= it.b:
+            return NONE, it
+        x, inner = iter_next(interp, it.a)
+        return x, IterV("take", inner, it.b, it.i + 1)
+    if k == "skip":
+        inner = it.a
+        for _ in range(it.b - it.i):
+            x, inner = iter_next(interp, inner)
+            if not is_some(x):
+                return NONE, IterV("skip", inner, it.b, it.b)
+        x, inner = iter_next(interp, inner)
+        return x, IterV("skip", inner, it.b, it.b)
+    if k == "chain":
+        if it.a is not None:
+            x, a = iter_next(interp, it.a)
+            if is_some(x):
+                return x, IterV("chain", a, it.b)
+        x, b = iter_next(interp, it.b)
+        return x, IterV("chain", None, b)
+    if k == "cloned":
+        x, inner = iter_next(interp, it.a)
+        if is_some(x):
+            return some(clone_value(interp, interp.load(x.fields[0]))), IterV("cloned", inner)
+        return NONE, IterV("cloned", inner)
+    if k == "filter_map":
+        inner = it.a
+        while True:
+            x, inner = iter_next(interp, inner)
+            if not is_some(x):
+                return NONE, IterV("filter_map", inner, it.b)
+            y = interp.call_value(it.b, [x.fields[0]])
+            if is_some(y):
+                return y, IterV("filter_map", inner, it.b)
+    if k == "zip":
+        x, a = iter_next(interp, it.a)
+        if not is_some(x):
+            return NONE, IterV("zip", a, it.b)
+        y, b = iter_next(interp, it.b)
+        if not is_some(y):
+            return NONE, IterV("zip", a, b)
+        return some((x.fields[0], y.fields[0])), IterV("zip", a, b)
     raise Inconclusive("iterator kind %s" % k, interp.where())
 
 
@@ -763,6 +805,358 @@ def m_iter_min(interp, args, info):
     for x in xs[1:]:
         acc = acc if cmp_values(interp, acc, x) <= 0 else x
     return some(acc)
+
+
+@model("std::iter::Iterator::rev")
+def m_iter_rev(interp, args, info):
+    xs = drain(interp, make_iter(interp, args[0]))
+    return IterV("vec", ListV(list(reversed(xs))))
+
+
+@model("std::iter::Iterator::take")
+def m_iter_take(interp, args, info):
+    if not isinstance(args[1], int):
+        raise Inconclusive("take(%r)" % (args[1],), interp.where())
+    return IterV("take", make_iter(interp, args[0]), args[1])
+
+
+@model("std::iter::Iterator::skip")
+def m_iter_skip(interp, args, info):
+    if not isinstance(args[1], int):
+        raise Inconclusive("skip(%r)" % (args[1],), interp.where())
+    return IterV("skip", make_iter(interp, args[0]), args[1])
+
+
+@model("std::iter::Iterator::chain")
+def m_iter_chain(interp, args, info):
+    return IterV("chain", make_iter(interp, args[0]), make_iter(interp, args[1]))
+
+
+@model("std::iter::Iterator::cloned", "std::iter::Iterator::copied")
+def m_iter_cloned(interp, args, info):
+    return IterV("cloned", make_iter(interp, args[0]))
+
+
+@model("std::iter::Iterator::filter_map")
+def m_iter_filter_map(interp, args, info):
+    return IterV("filter_map", make_iter(interp, args[0]), args[1])
+
+
+@model("std::iter::Iterator::zip")
+def m_iter_zip(interp, args, info):
+    return IterV("zip", make_iter(interp, args[0]), make_iter(interp, args[1]))
+
+
+def _by_ref_iter(interp, p):
+    c, path = interp.deref(p)
+    return c, path, interp.read(c, path)
+
+
+@model("std::iter::Iterator::find")
+def m_iter_find(interp, args, info):
+    c, path, it = _by_ref_iter(interp, args[0])
+    while True:
+        x, it = iter_next(interp, it)
+        interp.write(c, path, it)
+        if not is_some(x):
+            return NONE
+        if interp.call_value(args[1], [mkref(x.fields[0])]):
+            return x
+
+
+@model("std::iter::Iterator::find_map")
+def m_iter_find_map(interp, args, info):
+    c, path, it = _by_ref_iter(interp, args[0])
+    while True:
+        x, it = iter_next(interp, it)
+        interp.write(c, path, it)
+        if not is_some(x):
+            return NONE
+        y = interp.call_value(args[1], [x.fields[0]])
+        if is_some(y):
+            return y
+
+
+@model("std::iter::Iterator::position")
+def m_iter_position(interp, args, info):
+    c, path, it = _by_ref_iter(interp, args[0])
+    i = 0
+    while True:
+        x, it = iter_next(interp, it)
+        interp.write(c, path, it)
+        if not is_some(x):
+            return NONE
+        if interp.call_value(args[1], [x.fields[0]]):
+            return some(i)
+        i += 1
+
+
+@model("std::iter::Iterator::last")
+def m_iter_last(interp, args, info):
+    xs = drain(interp, make_iter(interp, args[0]))
+    return some(xs[-1]) if xs else NONE
+
+
+@model("std::iter::Iterator::nth")
+def m_iter_nth(interp, args, info):
+    c, path, it = _by_ref_iter(interp, args[0])
+    x = NONE
+    for _ in range(args[1] + 1):
+        x, it = iter_next(interp, it)
+        interp.write(c, path, it)
+        if not is_some(x):
+            return NONE
+    return x
+
+
+@model("std::iter::Iterator::for_each")
+def m_iter_for_each(interp, args, info):
+    for x in drain(interp, make_iter(interp, args[0])):
+        interp.call_value(args[1], [x])
+    return UNIT
+
+
+@model("std::iter::Iterator::reduce")
+def m_iter_reduce(interp, args, info):
+    xs = drain(interp, make_iter(interp, args[0]))
+    if not xs:
+        return NONE
+    acc = xs[0]
+    for x in xs[1:]:
+        acc = interp.call_value(args[1], [acc, x])
+    return some(acc)
+
+
+@model("std::iter::Iterator::max_by")
+def m_iter_max_by(interp, args, info):
+    xs = drain(interp, make_iter(interp, args[0]))
+    if not xs:
+        return NONE
+    acc = xs[0]
+    for x in xs[1:]:
+        c = ordering_to_int(interp.call_value(args[1], [mkref(acc), mkref(x)]))
+        acc = acc if c > 0 else x
+    return some(acc)
+
+
+@model("std::iter::Iterator::min_by")
+def m_iter_min_by(interp, args, info):
+    xs = drain(interp, make_iter(interp, args[0]))
+    if not xs:
+        return NONE
+    acc = xs[0]
+    for x in xs[1:]:
+        c = ordering_to_int(interp.call_value(args[1], [mkref(acc), mkref(x)]))
+        acc = acc if c <= 0 else x
+    return some(acc)
+
+
+@model("std::iter::Iterator::max_by_key")
+def m_iter_max_by_key(interp, args, info):
+    xs = drain(interp, make_iter(interp, args[0]))
+    if not xs:
+        return NONE
+    acc, ka = xs[0], interp.call_value(args[1], [mkref(xs[0])])
+    for x in xs[1:]:
+        kx = interp.call_value(args[1], [mkref(x)])
+        if not cmp_values(interp, ka, kx) > 0:
+            acc, ka = x, kx
+    return some(acc)
+
+
+@model("std::iter::Iterator::min_by_key")
+def m_iter_min_by_key(interp, args, info):
+    xs = drain(interp, make_iter(interp, args[0]))
+    if not xs:
+        return NONE
+    acc, ka = xs[0], interp.call_value(args[1], [mkref(xs[0])])
+    for x in xs[1:]:
+        kx = interp.call_value(args[1], [mkref(x)])
+        if not cmp_values(interp, ka, kx) <= 0:
+            acc, ka = x, kx
+    return some(acc)
+
+
+@model("core::slice::<impl [T]>::len")
+def m_slice_len(interp, args, info):
+    v = interp.strip(args[0])
+    if isinstance(v, ListV):
+        return len(v.items)
+    raise Inconclusive("slice len of %r" % (v,), interp.where())
+
+
+@model("core::slice::<impl [T]>::is_empty")
+def m_slice_is_empty(interp, args, info):
+    v = interp.strip(args[0])
+    if isinstance(v, ListV):
+        return len(v.items) == 0
+    raise Inconclusive("slice is_empty of %r" % (v,), interp.where())
+
+
+def _elem_ptr(interp, p, i):
+    c, path = interp.deref(p)
+    v = interp.read(c, path)
+    while isinstance(v, (Ptr, BoxV)):
+        c, path = interp.deref(v)
+        v = interp.read(c, path)
+    if not isinstance(v, ListV):
+        raise Inconclusive("element access on %r" % (v,), interp.where())
+    n = len(v.items)
+    return c, path, n
+
+
+@model("core::slice::<impl [T]>::first")
+def m_slice_first(interp, args, info):
+    c, path, n = _elem_ptr(interp, args[0], 0)
+    return some(Ptr(c, path + (("i", 0),))) if n else NONE
+
+
+@model("core::slice::<impl [T]>::last")
+def m_slice_last(interp, args, info):
+    c, path, n = _elem_ptr(interp, args[0], 0)
+    return some(Ptr(c, path + (("i", n - 1),))) if n else NONE
+
+
+@model("core::slice::<impl [T]>::get")
+def m_slice_get(interp, args, info):
+    c, path, n = _elem_ptr(interp, args[0], 0)
+    i = args[1]
+    if not isinstance(i, int):
+        raise Inconclusive("slice get(%r)" % (i,), interp.where())
+    return some(Ptr(c, path + (("i", i),))) if 0 <= i < n else NONE
+
+
+@model("<std::vec::Vec<T, A> as std::ops::Index<I>>::index", "core::slice::index::<impl std::ops::Index<I> for [T]>::index")
+def m_vec_index(interp, args, info):
+    c, path, n = _elem_ptr(interp, args[0], 0)
+    i = args[1]
+    if not isinstance(i, int):
+        raise Inconclusive("index with %r" % (i,), interp.where())
+    if not 0 <= i < n:
+        raise Panic("index", interp.where(), "index %d out of %d" % (i, n))
+    return Ptr(c, path + (("i", i),))
+
+
+@model("std::vec::Vec::<T, A>::extend_from_slice", "<std::vec::Vec<T, A> as std::iter::Extend<T>>::extend")
+def m_vec_extend(interp, args, info):
+    c, path, v = _vec_at(interp, args[0])
+    src = args[1]
+    xs = drain(interp, make_iter(interp, src))
+    if info.get("resolved", {}).get("def", "").endswith("extend_from_slice"):
+        xs = [clone_value(interp, interp.load(x)) for x in xs]
+    interp.write(c, path, ListV(v.items + tuple(xs)))
+    return UNIT
+
+
+@model("std::vec::Vec::<T, A>::with_capacity", "std::vec::Vec::<T>::with_capacity")
+def m_vec_with_capacity(interp, args, info):
+    return ListV(())
+
+
+@model("std::vec::Vec::<T, A>::clear")
+def m_vec_clear(interp, args, info):
+    c, path, v = _vec_at(interp, args[0])
+    interp.write(c, path, ListV(()))
+    return UNIT
+
+
+@model("std::vec::Vec::<T, A>::iter", "std::vec::Vec::<T, A>::as_slice")
+def m_vec_iter(interp, args, info):
+    return make_iter(interp, args[0]) if info["def"].endswith("iter") else args[0]
+
+
+@model("std::mem::take")
+def m_mem_take(interp, args, info):
+    c, path = interp.deref(args[0])
+    v = interp.read(c, path)
+    if isinstance(v, ListV):
+        interp.write(c, path, ListV(()))
+        return v
+    if isinstance(v, Adt) and v.name == "std::option::Option":
+        interp.write(c, path, NONE)
+        return v
+    raise Inconclusive("mem::take of %r" % (v,), interp.where())
+
+
+@model("std::mem::replace")
+def m_mem_replace(interp, args, info):
+    c, path = interp.deref(args[0])
+    v = interp.read(c, path)
+    interp.write(c, path, args[1])
+    return v
+
+
+@model("std::option::Option::<T>::take")
+def m_opt_take(interp, args, info):
+    c, path = interp.deref(args[0])
+    v = interp.read(c, path)
+    interp.write(c, path, NONE)
+    return v
+
+
+@model("std::option::Option::<T>::or")
+def m_opt_or(interp, args, info):
+    return args[0] if is_some(args[0]) else args[1]
+
+
+@model("std::option::Option::<T>::or_else")
+def m_opt_or_else(interp, args, info):
+    return args[0] if is_some(args[0]) else interp.call_value(args[1], [])
+
+
+@model("std::option::Option::<T>::unwrap_or_else")
+def m_opt_unwrap_or_else(interp, args, info):
+    return args[0].fields[0] if is_some(args[0]) else interp.call_value(args[1], [])
+
+
+@model("std::option::Option::<T>::unwrap_or_default")
+def m_opt_unwrap_or_default(interp, args, info):
+    if is_some(args[0]):
+        return args[0].fields[0]
+    raise Inconclusive("unwrap_or_default on None", interp.where())
+
+
+@model("std::option::Option::<T>::map_or")
+def m_opt_map_or(interp, args, info):
+    return interp.call_value(args[2], [args[0].fields[0]]) if is_some(args[0]) else args[1]
+
+
+@model("std::option::Option::<T>::is_some_and")
+def m_opt_is_some_and(interp, args, info):
+    return bool(is_some(args[0]) and interp.call_value(args[1], [args[0].fields[0]]))
+
+
+@model("std::option::Option::<T>::expect")
+def m_opt_expect(interp, args, info):
+    if is_some(args[0]):
+        return args[0].fields[0]
+    raise Panic("expect_none", interp.where())
+
+
+@model("std::option::Option::<T>::ok_or")
+def m_opt_ok_or(interp, args, info):
+    return ok(args[0].fields[0]) if is_some(args[0]) else err(args[1])
+
+
+@model("std::option::Option::<&T>::cloned", "std::option::Option::<&T>::copied")
+def m_opt_cloned(interp, args, info):
+    if is_some(args[0]):
+        return some(clone_value(interp, interp.load(args[0].fields[0])))
+    return NONE
+
+
+@model("<std::option::Option<T> as std::ops::Try>::branch")
+def m_opt_try_branch(interp, args, info):
+    v = args[0]
+    cf = "std::ops::ControlFlow"
+    if is_some(v):
+        return Adt(cf, interp.prog.variant_index(cf, "Continue"), (v.fields[0],))
+    return Adt(cf, interp.prog.variant_index(cf, "Break"), (NONE,))
+
+
+@model("<std::option::Option<T> as std::ops::FromResidual<std::option::Option<std::convert::Infallible>>>::from_residual")
+def m_opt_from_residual(interp, args, info):
+    return NONE
 
 
 @model("std::iter::Iterator::count")
